@@ -114,7 +114,8 @@ def cases(tier, seed):
     for spec in RF.model_specs(tier, seed):
         nrel = min(spec["ns"], spec["nd"])
         big = max(spec["ns"], spec["nd"]) >= 4
-        base = dict(part="elbo", model=spec, seed=seed)
+        base = dict(part="elbo", model=spec, seed=seed, shape="%dx%d" % (spec["ns"], spec["nd"]), rkind=spec["rkind"],
+                    noise=spec["noise"])          # top-level copies: addressable by VERIF_FILTER
 
         def add(**kw):
             c = dict(base)
@@ -147,8 +148,8 @@ def cases(tier, seed):
                 add(mode="slq", space=space, k=k, sjit=sjit, analytic=analytic)
         if not quick or (spec["ns"], spec["nd"]) == (3, 2):
             add(mode="slq", k=0, slqopt="full-B3", analytic=True)
-            add(mode="slq", k=0, slqopt="radau", analytic=False, space="data")
-            if nrel >= 2:
+            if nrel >= 2:          # Radau bounds need >= 1 exact eigenvalue (documented) and a non-empty remainder
+                add(mode="slq", k=1, slqopt="radau", analytic=False, space="data")
                 add(mode="slq", k=1, slqopt="radau", analytic=False)
         # classic
         for analytic, mode in itertools.product((False, True), ("all", "neig")):
